@@ -60,6 +60,12 @@ pub fn traced_run<K: SimKey>(case: &Case, out: &mut Outcome, snap: bool) -> Trac
     let wl = &case.workload;
     let mut w = World::<K>::new(&base, wl);
     w.own = case.property.clone();
+    if wl.cfg.n == 1 {
+        w.probes.n_is_1 += 1;
+    }
+    if wl.cfg.async_mode {
+        w.probes.async_mode += 1;
+    }
     let mut models = Vec::new();
     let mut failure = None;
     with_sim(|s| s.begin_op(OPEN_OP));
